@@ -87,4 +87,19 @@ PLAN = {
             {"name": "miri", "flavour": "miri", "shards": 6, "shards_thorough": 32, "timeout": 1200},
         ],
     },
+    "C02": {
+        "level": "exploration",
+        "rule": "cells leg: thousands of fresh RecorderOnceCell instances, each raced by 1-5 installers (1-3 attempts each, recorder "
+                "doubles with payload canary + drop counter) and 1-6 loaders (2-21 lookups each, every hit dispatched into the double); "
+                "a quarter of the trials each: winner held after the CAS / after the pointer write / a loader held after seeing "
+                "INITIALIZED (gates), random holds, no holds. Oracle: write-once-register rules on the stamped history + canary + "
+                "drop accounting. global leg: one process per trial of the real set_global_recorder raced with macro emissions. "
+                "case = one trial; distinct = (hook interleaving signature, history) hash; non-trivial = >= 3 racing threads.",
+        "assumptions": ["'seen whole' is judged through a 6-word canary written by the double's constructor", "Relaxed/Acquire mistakes that x86 hides are only observable in the Miri leg"],
+        "legs": [
+            {"name": "cells", "flavour": "native", "shards": 4, "shards_thorough": 16},
+            {"name": "global", "flavour": "native", "shards": 12, "shards_thorough": 200},
+            {"name": "miri", "leg": "miri", "flavour": "miri", "shards": 12, "shards_thorough": 96, "miriflags": IGN, "timeout": 1200},
+        ],
+    },
 }
